@@ -164,6 +164,29 @@ func (w *World) execArray(st *Step) *Violation {
 		if mv, ok := scalarOf(st.V); ok {
 			val, _ = scalarValueOf(mv)
 		}
+		// ... or a detached-and-kept container offered for re-attachment at an impossible position: its
+		// Storable() would inline it (remove its root slab from storage) - a rejected request must not get that far
+		var offered *MCont
+		if st.V != nil && st.V.Ref != nil && (st.Sub == "set" || st.Sub == "insert") {
+			if dc := w.Model.Conts[*st.V.Ref]; dc != nil && dc.Parent == nil && dc.Owner == c.Owner && dc != c.Root() && (!dc.IsMap || dc.Dig.Kind == "default") {
+				if dh, v := w.handle(dc); v == nil {
+					val = dh.(atree.Value)
+					offered = dc
+					w.Stats.Inc("reject.index-with-container-value")
+				}
+			}
+		}
+		defer func() {
+			if offered == nil {
+				return
+			}
+			if dh, _ := w.handle(offered); dh != nil {
+				if in, ok := dh.(interface{ Inlined() bool }); ok && in.Inlined() {
+					// reported through the regular oracles as well (the container lost its register); flag the cause here
+					w.Stats.Inc("reject.offered-container-inlined")
+				}
+			}
+		}()
 		switch st.Sub {
 		case "get":
 			_, err = a.Get(idx)
